@@ -59,6 +59,14 @@ pub fn err_sig(e: &sonic_rs::Error) -> String {
 
 use vbase::refjson::{classify_number, Kind, Node, NumClass};
 
+/// The text of a `&str` handed out by the library, or a marker with its bytes if it is not valid UTF-8.
+pub fn checked_text(s: &str) -> String {
+    match std::str::from_utf8(s.as_bytes()) {
+        Ok(t) => t.to_string(),
+        Err(_) => format!("<&str that is not UTF-8: bytes {:02x?}>", &s.as_bytes()[..s.len().min(24)]),
+    }
+}
+
 /// Walk a DOM value using `get_type` dispatch; in raw mode numbers are reported through
 /// `as_raw_number`.
 pub fn walk(v: &Value, raw: bool) -> M {
@@ -92,7 +100,8 @@ pub fn walk(v: &Value, raw: bool) -> M {
             }
         }
         T::String => match v.as_str() {
-            Some(s) => M::Str(s.to_string()),
+            // (a `&str` that is not UTF-8 is reported as such instead of being carried into messages)
+            Some(s) => M::Str(checked_text(s)),
             None => M::Str("<type string but as_str None>".into()),
         },
         T::Array => match v.as_array() {
@@ -107,7 +116,7 @@ pub fn walk(v: &Value, raw: bool) -> M {
         },
         T::Object => match v.as_object() {
             Some(o) => {
-                let items: Vec<(String, M)> = o.iter().map(|(k, x)| (k.to_string(), walk(x, raw))).collect();
+                let items: Vec<(String, M)> = o.iter().map(|(k, x)| (checked_text(k), walk(x, raw))).collect();
                 if o.len() != items.len() {
                     return M::Str("<object len() differs from iteration>".into());
                 }
